@@ -71,9 +71,10 @@ Text(c) ==
     [] c = "Undef"    -> "local y = zz\n"
     [] c = "UseFoo"   -> "---@type Foo\nlocal f\nlocal v = f.bar\nlocal g = GG\n"
     [] c = "ClsSub"   -> "---@class Bar: Foo\n"
+    [] c = "ReqA"     -> "local m = require(\"a\")\nreturn m\n"
     [] OTHER          -> ""
 AllContents == {"ClsDoc", "ClsDoc2", "ClsPlain", "ClsField", "GInt", "GStr", "ReqB", "Mod", "Alias", "Enum",
-                "DiagOff", "Undef", "UseFoo", "ClsSub"}
+                "DiagOff", "Undef", "UseFoo", "ClsSub", "ReqA"}
 TypeNames == {"Foo", "Id", "Color", "Bar"}
 GlobalNames == {"GG"}
 
@@ -85,9 +86,9 @@ Mem(c)   == CASE c = "ClsField" -> {<<"Foo", "bar">>}
               [] c = "Enum" -> {<<"Color", "Red">>, <<"Color", "Green">>} [] OTHER -> {}
 NMem(c)  == CASE c \in {"ClsField", "Mod"} -> 1 [] c = "Enum" -> 2 [] OTHER -> 0   \* entries of `members`
 Glob(c)  == IF c \in {"GInt", "GStr"} THEN {"GG"} ELSE {}
-Req(c)   == IF c = "ReqB" THEN {"b"} ELSE {}
+Req(c)   == CASE c = "ReqB" -> {"b"} [] c = "ReqA" -> {"a"} [] OTHER -> {}
 DOff(c)  == c = "DiagOff"
-Uses(c)  == CASE c = "UseFoo" -> {"Foo", "GG"} [] c = "ReqB" -> {"mod:b"} [] c = "ClsSub" -> {"Foo"} [] OTHER -> {}
+Uses(c)  == CASE c = "UseFoo" -> {"Foo", "GG"} [] c = "ReqB" -> {"mod:b"} [] c = "ReqA" -> {"mod:a"} [] c = "ClsSub" -> {"Foo"} [] OTHER -> {}
 Partial(t) == t = "Foo"         \* Id and Color are not partial: declaring them twice is already a diagnostic
 
 \* ------------------------------------------------------------------------------------------------
@@ -237,7 +238,8 @@ H(op, p, c) == [op |-> op, p |-> p, c |-> c, order |-> <<>>, init |-> <<>>]
 
 WellFormed(fs) ==
   /\ \A t \in TypeNames : ~Partial(t) => Cardinality({p \in Live(fs) : t \in Decl(fs[p])}) <= 1
-  /\ "b" \in PathSet => fs["b"] # "ReqB"             \* no self-require (cyclic modules are order dependent)
+  /\ "b" \in PathSet => fs["b"] # "ReqB"             \* no self-require
+  /\ fs["a"] # "ReqA"
 
 InitFiles == {fs \in [PathSet -> Contents \cup {None}] : WellFormed(fs) /\ Live(fs) # {}}
 
